@@ -191,8 +191,24 @@ def lattice_repair(kind):
     from . import c16 as T16
     cls = el.ExponentLattice
     saved = (cls.compute_basis_rational, cls.is_trivially_empty)
+
+    def filtered(self):
+        """the code's own rows with the rows that are not multiplicative relations removed (sound,
+        possibly incomplete): isolates the effect of the false rows"""
+        rows = saved[0](self)
+        out = []
+        for row in rows:
+            v = Fr(1)
+            for b, e in zip(self.bases, row):
+                v *= Fr(int(b.p), int(b.q)) ** int(e)
+            if v == 1:
+                out.append(row)
+        return out
     try:
-        cls.compute_basis_rational = T16._repaired_compute_basis_rational
+        if kind == "filter":
+            cls.compute_basis_rational = filtered
+        else:
+            cls.compute_basis_rational = T16._repaired_compute_basis_rational
         if kind == "one":
             cls.is_trivially_empty = T16._repaired_is_trivially_empty(saved[1])
         yield
